@@ -171,6 +171,11 @@ def build_history(recs, delim, probe):
             cur = m.records[i]
             m.records[i] = mrec(cur.prefix, cur.uri_prefix, cur.psyn, cur.usyn + (s,))
         probe(conv, m)
+        # the registered pair once more, bringing nothing but a fresh URI-prefix synonym (through add_prefix)
+        conv.add_prefix(r.prefix, r.uri_prefix, uri_prefix_synonyms=[f"nv{i}"], merge=True)
+        cur = m.records[i]
+        m.records[i] = mrec(cur.prefix, cur.uri_prefix, cur.psyn, cur.usyn + (f"nv{i}",))
+        probe(conv, m)
         if r.psyn:
             conv.add_record(Record(prefix=r.psyn[0], uri_prefix=f"nu{i}", prefix_synonyms=[f"ns{i}"]), merge=True)
             cur = m.records[i]
@@ -189,7 +194,7 @@ def run_case(case, ctx=None):
     b = bounds(case.get("tier", "quick"))
     model0 = Model(recs, d)
     ids = identifiers(d)
-    for mode in ("ctor", "merge-late", "history"):
+    for mode in ("ctor", "merge-late", "history", "loader"):
         model = model0
         prefixes = sorted(model.all_prefixes()) + UNREG + (GHOSTS if mode == "history" else [])
         if mode == "merge-late" and not any(r.psyn or r.usyn for r in recs):
@@ -207,6 +212,17 @@ def run_case(case, ctx=None):
                 conv, model = build_history(recs, d, probe)
                 if model is None:
                     continue
+            elif mode == "loader":
+                # the same converter through a loader, the delimiter passed as keyword argument
+                if any(r.psyn for r in recs):
+                    conv = Converter.from_extended_prefix_map([{"prefix": r.prefix, "uri_prefix": r.uri_prefix, "prefix_synonyms": list(r.psyn), "uri_prefix_synonyms": list(r.usyn)} for r in recs], delimiter=d)
+                elif any(r.usyn for r in recs):
+                    conv = Converter.from_priority_prefix_map({r.prefix: [r.uri_prefix, *r.usyn] for r in recs}, delimiter=d)
+                else:
+                    conv = Converter.from_reverse_prefix_map({r.uri_prefix: r.prefix for r in recs}, delimiter=d)
+                    c2 = Converter.from_prefix_map({r.prefix: r.uri_prefix for r in recs}, delimiter=d)
+                    if canon(c2) != canon(conv):
+                        fails.append(("C02/loaders-disagree", f"{where}: from_prefix_map and from_reverse_prefix_map give different converters"))
             else:
                 conv = build_variant(recs, d, mode, probe)
         except Exception as e:  # noqa
@@ -238,6 +254,21 @@ def run_case(case, ctx=None):
                     ctx.count("configs_with_uri_synonyms")
                 if any("" in r.prefixes for r in recs):
                     ctx.count("configs_with_empty_prefix")
+        if not fails and mode == "ctor" and d == ":":
+            # converters derived from this one are separate objects: what they learn later stays unknown here
+            for label, derive in (("chain([c])", lambda c: curies.chain([c])), ("get_subconverter(all)", lambda c: c.get_subconverter(sorted(model.all_prefixes())))):
+                try:
+                    derived = derive(conv)
+                    derived.add_prefix("late", "late/", prefix_synonyms=["late2"])
+                    if recs:
+                        derived.add_prefix(recs[0].prefix, "late3/", merge=True)
+                except ValueError:
+                    continue
+                for p in ("late", "late2"):
+                    check_pair(conv, model, p, "1", fails, where + f" after {label} learnt new prefixes")
+                    check_string(conv, model, p + d + "1", fails, where + f" after {label} learnt new prefixes")
+                for r in recs[:1]:
+                    check_pair(conv, model, r.prefix, "1", fails, where + f" after {label} learnt new prefixes")
         if fails:
             break
     return fails
@@ -262,7 +293,7 @@ def describe(tier):
     return {
         "level": "model_checking",
         "rule": "all sets of <= max_prefixes CURIE strings from {'',a,A,b,ab} x partitions into <=3 records x canonical choices x 0..2 "
-        "URI synonyms per record x 3 delimiters x 3 construction modes (constructor; synonyms arriving late by merge; a history with rejected additions and a merge matched "
+        "URI synonyms per record x 3 delimiters x 4 construction modes (constructor; a loader with the delimiter as keyword; synonyms arriving late by merge; a history with rejected additions and a merge matched "
         "through a synonym, probed between the steps); queries: (registered + 4 unregistered prefixes) x 13 "
         "identifiers through 6 entry points, plus all strings up to string_len over {a,A,b,1,delimiter chars}; "
         "distinct_nontrivial = distinct converter states with at least one CURIE-prefix synonym",
